@@ -403,6 +403,29 @@ pub fn run_c10(run: &mut Run) {
         b.extend_from_slice(&[(i >> 16) as u8, (i >> 8) as u8, i as u8]);
         0
     });
+    // extreme stored values: every EID 0..=255 stored by a processed Set/Force (forged requests can
+    // carry 0x00 and 0xFF) or through either accessor, then every answerable request
+    run.sweep_chunked("every EID value 0..=255 stored (Set, Force, request accessor, response accessor) then each of 8 answerable requests", 256 * 4 * 8, |acc, lo, hi| {
+        let cfg = Cfg::simple(DST);
+        let owned = Owned::new(&cfg);
+        let mut buf = Vec::with_capacity(64);
+        for k in lo..hi {
+            let e = (k % 256) as u8;
+            let how = (k / 256) % 4;
+            let q = k / 1024;
+            let history = vec![match how {
+                0 => Event::Process(forge_request(SRC, DST, 0, false, 0x01, &[0, e])),
+                1 => Event::Process(forge_request(SRC, DST, 0, false, 0x01, &[1, e])),
+                2 => Event::SetEidReq(e),
+                _ => Event::SetEidResp(e),
+            }];
+            let (cmd, data): (u8, &[u8]) = [(0x01u8, &[0u8, 0x21][..]), (0x01, &[1, 0xFE]), (0x01, &[3, 0x21]), (0x02, &[]), (0x03, &[]), (0x04, &[0xFF]), (0x05, &[]), (0x06, &[0])][q as usize];
+            buf.clear();
+            buf.extend_from_slice(&forge_request(SRC, DST, 0, false, cmd, data));
+            let spec = CtxSpec { cfg: cfg.clone(), history };
+            c10_one(acc, &spec, &owned, &buf, true, 2, k);
+        }
+    });
     // every reachable state of the C13 machine: axes 0-3 and the truncation space
     let reps = reachable_states(run);
     let cfg = Cfg::simple(DST);
